@@ -28,6 +28,28 @@ const ID: &str = "C16";
 pub enum Val {
     Data(Vec<u16>),
     Refuses,
+    /// Encodes as an array of k zeros where k grows by one with every `encode` call (interior
+    /// state, like the built-in Cell / atomic impls or a stateful `write_with` context).
+    Counting(Rc<std::cell::Cell<u8>>),
+}
+
+struct Counting(Rc<std::cell::Cell<u8>>);
+impl<C> minicbor::Encode<C> for Counting {
+    fn encode<W: minicbor::encode::Write>(&self, e: &mut minicbor::Encoder<W>, _: &mut C) -> Result<(), minicbor::encode::Error<W::Error>> {
+        let k = self.0.get();
+        self.0.set((k + 1) % 20);
+        e.array(k as u64)?;
+        for _ in 0..k {
+            e.u8(0)?;
+        }
+        Ok(())
+    }
+}
+
+fn counting_payload(k: u8) -> Vec<u8> {
+    let mut v = vec![0x80 + k];
+    v.extend(std::iter::repeat(0u8).take(k as usize));
+    v
 }
 
 struct Refuses;
@@ -73,8 +95,26 @@ pub fn run_schedule_relimit(values: &[Val], ch: &Choices, b: Bounds, max_len: us
     let poll_budget: u64 = 64 + (total_len as u64 + 8 * values.len() as u64 + 8) * (b.pendings as u64 + 2) * 4;
     let mut seen_errors = 0u64;
 
+    // a value whose encoding depends on how often it was encoded: the frame may legitimately be any
+    // of a few self-consistent candidates; (length of `want` before the frame, alternative frames)
+    let mut alts: Option<(usize, Vec<Vec<u8>>)> = None;
     macro_rules! prefix_check {
         ($where:expr) => {{
+            {
+                let out = &w.writer().out;
+                if out.len() > want.len() || out[..] != want[..out.len()] {
+                    if let Some((base, cands)) = alts.take() {
+                        for c in cands {
+                            let mut w2 = want[..base].to_vec();
+                            w2.extend_from_slice(&c);
+                            if out.len() <= w2.len() && out[..] == w2[..out.len()] {
+                                want = w2;
+                                break;
+                            }
+                        }
+                    }
+                }
+            }
             let out = &w.writer().out;
             if out.len() > want.len() || out[..] != want[..out.len()] {
                 return Err(format!("{}: the sink holds {} which is not a prefix of the frames written so far {}", $where, hex(&out[..out.len().min(80)]), hex(&want[..want.len().min(80)])));
@@ -107,14 +147,29 @@ pub fn run_schedule_relimit(values: &[Val], ch: &Choices, b: Bounds, max_len: us
         let payload: Option<Vec<u8>> = match v {
             Val::Data(d) => Some(minicbor::to_vec(d).unwrap()),
             Val::Refuses => None,
+            Val::Counting(c) => Some(counting_payload(c.get())),
         };
+        if let Val::Counting(c) = v {
+            let k0 = c.get();
+            let mut cands = Vec::new();
+            for j in 1..3u8 {
+                let mut f = Vec::new();
+                frame(&counting_payload((k0 + j) % 20), &mut f);
+                cands.push(f);
+            }
+            alts = Some((want.len(), cands));
+        } else {
+            alts = None;
+        }
         let committed = matches!(&payload, Some(p) if p.len() <= cur_max);
         let before_sink = w.writer().out.len();
+        let before_want = want.len();
         let mut zero_pending = w.writer().zeros_injected;
         let step = {
             let mut fut: std::pin::Pin<Box<dyn std::future::Future<Output = Result<usize, Error>> + '_>> = match v {
                 Val::Data(d) => Box::pin(w.write(d.clone())),
                 Val::Refuses => Box::pin(w.write(Refuses)),
+                Val::Counting(c) => Box::pin(w.write(Counting(c.clone()))),
             };
             let mut first = true;
             loop {
@@ -149,8 +204,9 @@ pub fn run_schedule_relimit(values: &[Val], ch: &Choices, b: Bounds, max_len: us
                 if !committed {
                     return Err(format!("write of a value that must be refused returned Ok({})", n));
                 }
-                if n != payload.as_ref().unwrap().len() {
-                    return Err(format!("write returned {} but the payload has {} bytes", n, payload.as_ref().unwrap().len()));
+                let framed = if let Val::Counting(_) = v { want.len() - before_want - 4 } else { payload.as_ref().unwrap().len() };
+                if n != framed {
+                    return Err(format!("write returned {} but the payload in the frame has {} bytes", n, framed));
                 }
                 if w.writer().out != want {
                     return Err(format!("write completed but the sink holds {} of {} bytes", w.writer().out.len(), want.len()));
@@ -162,7 +218,7 @@ pub fn run_schedule_relimit(values: &[Val], ch: &Choices, b: Bounds, max_len: us
                         return Err("a value that failed to encode put bytes into the sink".into());
                     }
                 }
-                (Error::InvalidLen, Val::Data(_)) if !committed => {
+                (Error::InvalidLen, Val::Data(_) | Val::Counting(_)) if !committed => {
                     if w.writer().out.len() != before_sink {
                         return Err("an oversized value put bytes into the sink".into());
                     }
@@ -267,6 +323,7 @@ fn vals_repr(v: &[Val]) -> String {
         .map(|x| match x {
             Val::Data(d) => format!("{}", d.iter().map(|n| n.to_string()).collect::<Vec<_>>().join(".")),
             Val::Refuses => "R".to_string(),
+            Val::Counting(c) => format!("C{}", c.get()),
         })
         .collect::<Vec<_>>()
         .join(";")
@@ -274,7 +331,7 @@ fn vals_repr(v: &[Val]) -> String {
 
 fn vals_parse(s: &str) -> Vec<Val> {
     s.split(';')
-        .map(|x| if x == "R" { Val::Refuses } else { Val::Data(x.split('.').filter(|t| !t.is_empty()).map(|t| t.parse().unwrap()).collect()) })
+        .map(|x| if x == "R" { Val::Refuses } else if let Some(k) = x.strip_prefix('C') { Val::Counting(Rc::new(std::cell::Cell::new(k.parse().unwrap_or(0)))) } else { Val::Data(x.split('.').filter(|t| !t.is_empty()).map(|t| t.parse().unwrap()).collect()) })
         .collect()
 }
 
@@ -368,6 +425,8 @@ fn walk(rep: &mut Report, seed: u64, i: u64, states: &mut HashSet<(u8, usize, us
         .map(|_| {
             if rng.chance(1, 8) {
                 Val::Refuses
+            } else if max_len >= 40 && rng.chance(1, 6) {
+                Val::Counting(Rc::new(std::cell::Cell::new(rng.below(18) as u8)))
             } else {
                 let k = if i % 5 == 2 { 40 + rng.below(400) } else if rng.chance(1, 25) { rng.below(1500) } else { rng.below(10) };
                 Val::Data((0..k).map(|_| rng.next_u32() as u16).collect())
